@@ -703,6 +703,12 @@ func (fr *frame) applyContract(d *Decl, callee *ssa.Function, sig *types.Signatu
 	bindResults(post, callee, sig, res)
 	for _, c := range d.Get("ensures") {
 		// a clause that speaks about the callee's internals (names bound by its `bind` clauses) means nothing to a caller: skipped
+		if strings.Contains(c.Text, "ghost(") {
+			// ghost counters are per activation: what the callee's counters end at says nothing about the caller's
+			// (effects on the caller's ghost state are declared with ghost-set)
+			vc.note("ensures[" + c.Label + "] of " + key + " speaks about the callee's ghost counters: not assumed by callers")
+			continue
+		}
 		f, ok := post.tryBool(c.E)
 		if !ok {
 			vc.note("ensures[" + c.Label + "] of " + key + " refers to names internal to the callee: not available to callers")
